@@ -517,6 +517,12 @@ def constructor_tables(cx: Cx, ob_id: str) -> dict[str, list[Entry]]:
     for name, src in alias.items():
         if src in tables:
             tables[name] = [Entry(name, e.key_fields, e.key_unknown, e.value, e.value_field, e.conditions, e.site, e.fn, e.line, e.record) for e in tables[src]]
+    # entries __init__ adds item by item to a table it has built wholesale (aliases, extra spellings)
+    if inline is None:
+        inline = index_method_entries(cx, init, ob_id)
+    for name, ents in inline.items():
+        if name in TABLES and name in tables and not any(e.fn == init.qualname for e in tables[name]):
+            tables[name] = list(tables[name]) + [e for e in ents if e.key_unknown and not e.key_fields]
     return tables
 
 
@@ -765,6 +771,35 @@ def scan_none_discipline(cx: Cx, ob: Ob, fns: list[FunctionInfo]) -> None:
                     f"the result of {d} (str | None) is used as a string (`{show(t)[:60]}`) on a path that never tests it: when it is None the caller gets a reference holding None or a TypeError instead of the failure answer",
                     detail=f"untested-optional:{d}",
                 )
+        # ORDER: a str|None result as (part of) a sort key: None and str do not compare, so the sort raises
+        # TypeError as soon as one element has no answer and another has
+        for t, ev, _ in s.all_terms():
+            for c in subterms(t):
+                if not (op(c) == "call" and (c[1] in (("builtin", "sorted"), ("builtin", "min"), ("builtin", "max")) or (op(c[1]) == "attr" and c[1][2] == "sort"))):
+                    continue
+                key = dict(c[3]).get("key")
+                if key is None:
+                    continue
+                bodies = []
+                if op(key) == "lambda":
+                    bodies = [key[2]]
+                elif op(key) in ("func", "closure") and isinstance(key[1], str) and key[1] in cx.model.functions:
+                    bodies = [r for r, _ in cx.summary(cx.model.functions[key[1]], ob.id).returns()]
+                elif op(key) == "attr" and key[2] in opt:
+                    bodies = [("call", key, (("bv", 0, "x"),), ())]
+                for b in bodies:
+                    for x in subterms(b):
+                        d = is_optional_str_lookup(cx, x, opt) if op(x) == "call" else None
+                        if d is None or is_const(dict(x[3]).get("passthrough"), True) or (fn.qualname, "sortkey", d) in seen:
+                            continue
+                        seen.add((fn.qualname, "sortkey", d))
+                        ob.violate(
+                            fn.qualname,
+                            where(fn, ev.line),
+                            f"the result of {d} (str | None) is (part of) the sort key in `{show(c)[:50]}`: for a name the converter does not know it is None, and None does not compare with the strings of the other elements - TypeError instead of an order",
+                            witness="a remapping with one known and one unknown old prefix: sorted(...) raises TypeError: '<' not supported between 'NoneType' and 'str'",
+                            detail=f"optional-sort-key:{d}",
+                        )
         for t, ctx in s.returns():
             for sub in subterms(t):
                 if op(sub) in ("or", "and"):
@@ -880,6 +915,26 @@ def inline_methods(cx: Cx, t, self_term, cls_q: str, names: set[str], depth: int
     return tuple(inline_methods(cx, x, self_term, cls_q, names, depth) if isinstance(x, tuple) else x for x in t)
 
 
+def inline_functions(cx: Cx, t, depth: int = 0):
+    """Replace calls of module-level helpers that are ONE return expression for this call (literal arguments decide
+    their parameter tests: ``_eq(a, b, True)`` is ``a == b``) by that expression."""
+    from .terms import substitute
+
+    if not isinstance(t, tuple) or depth > 4:
+        return t
+    if op(t) == "call" and op(t[1]) == "func":
+        f = cx.model.functions.get(t[1][1])
+        if f is not None and f.cls is None:
+            b = bind_args(f, t)
+            body = single_return(cx, f)
+            if body is None and b is not None:
+                body = _specialised_return(cx, f, b)
+            if body is not None and b is not None and not any(op(v) == "default" for v in b.values()):
+                mapping = {("param", k): inline_functions(cx, v, depth + 1) for k, v in b.items()}
+                return inline_functions(cx, substitute(body, mapping), depth + 1)
+    return tuple(inline_functions(cx, x, depth) if isinstance(x, tuple) else x for x in t)
+
+
 REF_FIELDS = ("prefix", "identifier")
 
 
@@ -982,6 +1037,14 @@ def flag_values(ctx: Ctx, flags=("strict", "passthrough", "return_none")) -> dic
     return out
 
 
+def _rename_self(t, frm, to):
+    if t == frm:
+        return to
+    if isinstance(t, tuple):
+        return tuple(_rename_self(x, frm, to) for x in t)
+    return t
+
+
 def state_closure(cx: Cx, ob: Ob) -> None:
     """Every piece of derived state of Converter is maintained by ``_index``; queries write no state."""
     init = cx.fn(f"{CONV}.__init__", ob.id)
@@ -1037,6 +1100,25 @@ def state_closure(cx: Cx, ob: Ob) -> None:
                             witness=f"__init__: self.{name} = {show(value)[:80]}; _index: self.{name} = {show(ev.b)[:80]}",
                             detail=f"partially-maintained:{name}",
                         )
+    # a record that LEAVES the record list (replaced in place, removed, popped) takes its names out of what a freshly
+    # built converter would know: the lookup tables must lose them too
+    LEAVES = ("item-store", "call .remove()", "call .pop()", "call .clear()", "delete", "call .__delitem__()", "call .__setitem__()")
+    unindexers = {m_.qualname for m_, attr_, ev_, how_ in writers if attr_ in TABLES and how_ in ("delete", "call .pop()", "call .clear()", "call .popitem()", "call .__delitem__()")}
+    for m, attr, ev, how in writers:
+        if attr == "records" and how in LEAVES and m.name != "__init__":
+            ms = cx.summary(m, ob.id, full=True)
+            mme = ("param", m.self_name)
+            calls_unindexer = any(self_call(c, mme) and f"{CONV}.{c[1][2]}" in unindexers for c, _, _ in ms.calls())
+            if m.qualname in unindexers or calls_unindexer:
+                ob.undecide(f"{m.name} takes a record out of self.records ({how}) and entries out of the lookup tables: that every name of the record leaves every table is not decided")
+            else:
+                ob.violate(
+                    m.qualname,
+                    where(m, ev.line),
+                    f"{m.name} takes a record out of self.records ({how}: `{show(ev.a)[:50]}`) and nothing removes its names from the lookup tables: prefixes and URI prefixes of a record the converter no longer has keep resolving, and a converter built from the same records answers differently",
+                    witness="add_record(r2, replace=True) over r1: compress of a URI under r1's URI prefix still succeeds; Converter(c.records) says None",
+                    detail=f"record-leaves-still-indexed:{m.name}",
+                )
     for m, attr, ev, how in writers:
         if m.name in allowed_writers:
             # in-place maintenance is fine; REBINDING a lookup table after construction is not:
@@ -1050,6 +1132,30 @@ def state_closure(cx: Cx, ob: Ob) -> None:
                 )
             continue
         ob.site(f"{where(m, ev.line)} {m.qualname}", f"writes self.{attr}")
+        if m.name == "__setstate__":
+            # a second initialiser (pickle / copy call it on a blank object): restoring __dict__ wholesale is what
+            # it is for; a derived value it REBUILDS must be rebuilt the way __init__ builds it
+            mme = ("param", m.self_name)
+            if attr == "__dict__":
+                continue
+            if attr in derived and how == "assign" and isinstance(ev.b, tuple):
+                mine = _rename_self(ev.b, mme, me)
+                if mine == derived[attr][0]:
+                    ob.site(f"{where(m, ev.line)} {m.qualname}", f"rebuilds self.{attr} like __init__")
+                    continue
+                theirs = {x[2] for x in subterms(derived[attr][0]) if op(x) == "attr" and x[1] == me}
+                ours = {x[2] for x in subterms(mine) if op(x) == "attr" and x[1] == me}
+                if ours != theirs and ours and theirs:
+                    ob.violate(
+                        m.qualname,
+                        where(m, ev.line),
+                        f"__setstate__ rebuilds self.{attr} from {sorted(ours)} while __init__ builds it from {sorted(theirs)}: a converter that went through pickle / copy.deepcopy answers from a different table than the one it was copied from",
+                        witness=f"__init__: {show(derived[attr][0])[:70]}; __setstate__: {show(ev.b)[:70]}",
+                        detail=f"setstate-source:{attr}",
+                    )
+                    continue
+            ob.undecide(f"__setstate__ writes self.{attr} ({how}) in a way __init__ does not")
+            continue
         if attr not in TABLES and attr not in BASE and how in ("item-store", "call .setdefault()") and _reset_unconditionally(cx, ob, attr):
             # a memo of query results keyed by the query, which _index - run on every mutation path (pairing
             # obligation) - resets on all of its paths.  That the key covers everything the answer depends on is
@@ -1168,7 +1274,8 @@ def as_comprehension(s: Summary, t):
         return t
     if op(t) != "new" or t[1] != "list" or (len(t) > 4 and op(t[4]) in ("list", "tuple") and t[4][1]):
         return None
-    muts = _dedupe(s.mutations_of(t))
+    all_muts = list(s.mutations_of(t))
+    muts = _dedupe(all_muts)
     if len(muts) != 1:
         return None
     ev, ctx = muts[0]
@@ -1182,6 +1289,15 @@ def as_comprehension(s: Summary, t):
         if g.line < lp.line:
             continue
         ifs.append(g.a if g.b else ("not", g.a))
+    # the same statement reached along several paths of the body (a test in front of it that only logs / warns):
+    # when EVERY path of the body passes through the append, nothing is filtered
+    body = lp.body or ()
+    if body and all(any(e.line == ev.line and e.kind == "expr" and e.a == ev.a for e in q.events) for q in body):
+        ifs = []
+    else:
+        variants = {tuple((g.a, g.b) for g in c_.guards if g.kind == "guard" and g.line >= lp.line) for e_, c_ in all_muts if e_.line == ev.line}
+        if len(variants) > 1:
+            return None
     # every path of the loop body that does not append must simply go on to the next element
     for q in lp.body or ():
         if q.out is not None and q.out[0] in ("return", "raise", "break"):
